@@ -79,7 +79,18 @@ func Patch(y tensor.Tensor, x tensor.Tensor, p tensor.Tensor, index []tensor.Ran
 			{
 				target: p,
 				gradFn: func() (tensor.Tensor, error) {
-					return y.Gradient().Slice(index)
+					// an omitted or {0,0} range covers the source block, not the whole target dimension
+					shape := p.Shape()
+					pindex := make([]tensor.Range, len(shape))
+					for i := range pindex {
+						if i >= len(index) || (index[i].From == 0 && index[i].To == 0) {
+							pindex[i] = tensor.Range{From: 0, To: shape[i]}
+						} else {
+							pindex[i] = index[i]
+						}
+					}
+
+					return y.Gradient().Slice(pindex)
 				},
 			},
 		},
